@@ -395,12 +395,15 @@ func (x *Exec) frameCheck(markIdx int, label string, refs []Value) {
 	firstOld := map[ak]Value{}
 	var elems []ak
 	var inScope map[interface{}]bool
+	x.visibleEnd = map[*Arr]int{}
 	if len(mk.Roots) > 0 {
 		inScope = map[interface{}]bool{}
 		for _, r := range mk.Roots {
 			x.reach(r, inScope)
 		}
 	}
+	visible := x.visibleEnd
+	x.visibleEnd = nil
 	for _, w := range x.writeLog {
 		if w.Seq <= mk.Seq || w.Serial > mk.Serial {
 			continue
@@ -408,6 +411,9 @@ func (x *Exec) frameCheck(markIdx int, label string, refs []Value) {
 		if inScope != nil {
 			if (w.Kind == "map" && !inScope[w.M]) || (w.Kind == "elem" && !inScope[w.A]) {
 				continue
+			}
+			if w.Kind == "elem" && w.Idx >= visible[w.A] {
+				continue // beyond the length of every slice of the receiver over this array
 			}
 		}
 		switch w.Kind {
@@ -729,6 +735,9 @@ func (x *Exec) reach(v Value, seen map[interface{}]bool) {
 		}
 		if !seen[c.A] {
 			seen[c.A] = true
+		}
+		if x.visibleEnd != nil && c.Off+c.Len > x.visibleEnd[c.A] {
+			x.visibleEnd[c.A] = c.Off + c.Len
 		}
 		for i := 0; i < c.Len; i++ {
 			x.reach(c.A.E[c.Off+i], seen)
